@@ -269,10 +269,18 @@ class UintField(CborField):
             return None
 
     def m2i(self, pkt, x):
-        try:
-            return int(x)
-        except TypeError:
+        if x is None:
             return None
+        if not isinstance(x, int):
+            # an array, map or string is not a number
+            raise ValueError(f'Not an integer item: {type(x).__name__}')
+        return int(x)
+
+    def any2i(self, pkt, x):
+        # a value assigned by the program, not decoded, may be any number
+        if isinstance(x, float):
+            return int(x)
+        return self.m2i(pkt, x)
 
     def i2repr(self, pkt, x):
         return encode_diagnostic(x)
